@@ -3,7 +3,7 @@
    getblock, and the tokenizer of Model/ClientView.v against Python's html.parser
    on pages the real server produced. *)
 From Coq Require Import String ZArith.
-From PG Require Import Lib.Str Lib.Dec Lib.HtmlEsc Lib.Utf8 Model.Entry Model.Wml Model.RenderUrl Model.ClientView Corr.K06.
+From PG Require Import Lib.Str Lib.Dec Lib.HtmlEsc Lib.Utf8 Model.Entry Model.Wml Model.GopherPlus Model.RenderUrl Model.ClientView Corr.K06.
 Local Open Scope N_scope.
 
 (* (((pagetopper, server_name), server_port), directory entry), renderdirstart *)
@@ -20,9 +20,10 @@ Definition chk_wap_404 (c : str * str) : bool := let '(msg, out) := c in str_eqb
 Definition chk_wap_deck (c : str * str) : bool := let '(text, out) := c in str_eqb (to_wml text) out.
 (* (selector, HTMLURLHandler.write output) *)
 Definition chk_url_page (c : str * str) : bool := let '(sel, out) := c in str_eqb (url_page sel) out.
-(* ((block name, value), getblock output) *)
-Definition chk_gplus_block (c : (str * str) * str) : bool :=
-  let '((n, v), out) := c in str_eqb (gplus_ea_block n v) out.
+(* ((keeps a final blank line?, (block name, value)), getblock output): the block builder is the
+   one of Model/GopherPlus.v (C15) *)
+Definition chk_gplus_block (c : (bool * (str * str)) * str) : bool :=
+  let '((keep, (n, v)), out) := c in str_eqb (GopherPlus.ea_block keep n v) out.
 
 Definition event_eqb (a b : event) : bool :=
   match a, b with
